@@ -83,6 +83,12 @@ def emitter_shape_rules(chk, prog, roles, want=("DEST", "ROOMPOS", "ADV", "GRID"
                 r = strip(kids(u)[1], casts=True)
                 if ref_name(r) in results or (r.get("kind") == "CallExpr" and callee_name(r) == roles.encode):
                     okadv = True
+            # an emitter built on another emitter: the delegate (checked on its own) advances the position it is handed
+            posname_ = P.lstrip("*")
+            for c in walk(prog.body(prog.fn(em))):
+                if c.get("kind") == "CallExpr" and callee_name(c) in roles.emitters and callee_name(c) != em and not fa["encode_calls"]:
+                    if any(_norm(a) == posname_ for a in call_args(c)) and any(_norm(a) == inst for a in call_args(c)):
+                        okadv = True
             n += 1
             chk.require(okadv, rule, "%s/advance/%s" % (rule, em), loc_str(prog.fn(em)),
                         "%s advances the position by the length the encoder returned" % em,
@@ -96,9 +102,24 @@ def emitter_shape_rules(chk, prog, roles, want=("DEST", "ROOMPOS", "ADV", "GRID"
         if "GRID" in want:
             for gexp in fa["grid"]:
                 n += 1
-                l = _norm(kids(gexp)[0])
+                f_ = prog.fn(em)
+                reassigned = {ref_name(strip(kids(x)[0])) for x in walk(prog.body(f_))
+                              if x.get("kind") in ("BinaryOperator", "CompoundAssignOperator") and x.get("opcode", "").endswith("=") and
+                              x.get("opcode") not in ("==", "!=", "<=", ">=") and strip(kids(x)[0]).get("kind") == "DeclRefExpr"}
+
+                def res(e):
+                    """text of e with a local that only ever holds <instance>->chunk_size replaced by that field"""
+                    e0 = strip(e, casts=True)
+                    if e0.get("kind") == "DeclRefExpr" and ref_name(e0) in fa["locals"] and ref_name(e0) not in reassigned:
+                        i0 = _norm(fa["locals"][ref_name(e0)])
+                        if i0 == inst + "->chunk_size":
+                            return i0
+                        if i0 == P and not fa["encode_calls"]:
+                            return i0       # the position as it was before the delegate emitter advanced it
+                    return _norm(e0)
+                l = res(kids(gexp)[0])
                 r = strip(kids(gexp)[1], casts=True)
-                a, b = _norm(kids(r)[0]), _norm(kids(r)[1])
+                a, b = res(kids(r)[0]), res(kids(r)[1])
                 cs = inst + "->chunk_size"
                 chk.require(l == cs and b == cs and a == P, rule, "%s/grid/%s" % (rule, em), loc_str(gexp),
                             "free space in the chunk is chunk_size - (position mod chunk_size), measured from the buffer start", expr_str(gexp))
@@ -584,8 +605,14 @@ def counting_increment_rule(chk, prog, roles, rule="COUNT"):
                     if guard["opcode"] == "<":
                         a, b = b, a
                     ia, ib = fa["locals"].get(ref_name(a)), fa["locals"].get(ref_name(b))
-                    ok = (ia is not None and strip(ia, casts=True).get("kind") == "CallExpr" and callee_name(strip(ia, casts=True)) == roles.encode and
-                          ib is not None and any(strip(ib, casts=True) is g for g in fa["grid"]))
+                    written_ok = ia is not None and strip(ia, casts=True).get("kind") == "CallExpr" and callee_name(strip(ia, casts=True)) == roles.encode
+                    if not written_ok and ia is not None and not fa["encode_calls"]:
+                        # built on another emitter: the length is the distance the delegate advanced the position, `P - <P before the call>`
+                        d_ = strip(ia, casts=True)
+                        if d_.get("kind") == "BinaryOperator" and d_.get("opcode") == "-" and _norm(kids(d_)[0]) == fa["P"]:
+                            b0 = strip(kids(d_)[1], casts=True)
+                            written_ok = b0.get("kind") == "DeclRefExpr" and ref_name(b0) in fa["locals"] and _norm(fa["locals"][ref_name(b0)]) == fa["P"]
+                    ok = (written_ok and ib is not None and any(strip(ib, casts=True) is g for g in fa["grid"]))
                 chk.require(ok, rule, "%s/%s" % (rule, em), loc_str(m),
                             "the break counter is incremented exactly when the written length exceeds the free space of the chunk",
                             "guard %s" % (expr_str(guard) if guard is not None else "none"))
